@@ -284,7 +284,10 @@ def _c04_cross(a):
         if not (os.path.exists(f2) and os.path.exists(snap2)):
             return i, None
         S = compare.norm_snapshot(json.load(open(snap2)))
-        D = c3dref.decode(open(f2, "rb").read())
+        try:
+            D = c3dref.decode(open(f2, "rb").read())
+        except c3dref.FormatError as e:
+            return i, [("saved_file_undecodable", "the file written by generation 1 cannot be decoded: %s" % e)]
         out = compare.loaded_vs_ref(S, D)
         D0 = c3dref.decode(open(orig, "rb").read())
         for g in D0["groups"].values():
